@@ -55,6 +55,8 @@ def fam_F3(tier):
 def interp_whole(I, prog, assume):
     """all paths of the interpreter (MIR) on a concrete program with symbolic inputs"""
     st = I.entry_state(prog_len=len(prog)); S = I.S
+    I.eng.stats['paths'] = 0
+    I.eng.memo.clear()        # summaries (get_insn ...) are keyed by argument terms, not by the program bytes behind them
     # the stack-usage map StackVerifier::stack_validate builds without a calculator: Default at 0 and at every CALL's pc+1+imm
     um = {0: None}
     for i in range(len(prog) // 8):
